@@ -1,6 +1,7 @@
 package c04
 
 import (
+	"fmt"
 	"sort"
 	"strings"
 
@@ -256,8 +257,20 @@ func (w *world) exec(i int, op *Op) stepRec {
 	w.opIndex = i
 	st := w.mon.st
 	rec := stepRec{dumps: map[string]string{}}
+	if w.mon.trace {
+		fmt.Printf("  [%s] op %d %s ...", w.tag, i, op)
+	}
 	rec.raw = w.issue(op)
+	if w.mon.trace {
+		fmt.Printf(" -> %s\n", rec.raw)
+	}
 	rec.log = w.call("takeLog")
+	if conv := w.call("takeConv"); conv != "" && w.spec {
+		// legitimate only where the operation converts an object *value* (ToNumber for typed-array elements / array length)
+		if !((op.Op == "set" || op.Op == "define") && op.Val != "" && (isObjectValue(op.Val) || op.Val == "E1")) {
+			w.stop("unexpected-conversion", "op %d %s -> %s called user-visible conversion methods: %s (no step of this operation converts an object to a primitive)", i, op, rec.raw, conv)
+		}
+	}
 	modelLive := w.spec && !w.modelDead
 	if modelLive {
 		w.m.Log = w.m.Log[:0]
